@@ -79,6 +79,38 @@ def marker_paths(seq):
     return out
 
 
+# callables whose result can be iterated only once
+ONE_SHOT_FACTORIES = ('iter', 'map', 'filter', 'zip', 'chain',
+                      'from_iterable', 'islice', 'reversed', 'enumerate',
+                      'takewhile', 'dropwhile', 'starmap', 'filterfalse',
+                      'compress', 'accumulate', 'zip_longest')
+
+
+def _flatten_iterable(v):
+    """set of the strings a folded iterable expression yields; chain(...)
+    and friends are looked through.  Anything else yields the empty set
+    (coverage then cannot be shown)."""
+    from engine.srcindex import CallTerm
+    if isinstance(v, CallTerm):
+        name = getattr(v.func, 'name', '')
+        if name.split('.')[-1] in ('chain', 'tuple', 'list', 'set',
+                                   'frozenset', 'sorted', 'iter'):
+            out = set()
+            for a in v.args:
+                out |= _flatten_iterable(a)
+            return out
+        return set()
+    if isinstance(v, dict):
+        return set(v)
+    if isinstance(v, (tuple, list, set, frozenset)):
+        out = set()
+        for x in v:
+            if isinstance(x, str):
+                out.add(x)
+        return out
+    return set()
+
+
 def run(report, index, tier):
     M = models(index)
     from .c20 import guard_tokens, guard_transcriptions
@@ -285,15 +317,15 @@ def run(report, index, tier):
             from engine.srcindex import Folder
             try:
                 v = Folder(um).fold(kw['reserved_keywords'])
-                ok = ES5_RESERVED <= set(v)
+                ok = ES5_RESERVED <= _flatten_iterable(v)
             except Unfoldable:
                 ok = False
     if call:
         kwv = {k.arg: k.value for k in call[0].keywords}.get(
             'reserved_keywords')
         oneshot = isinstance(kwv, ast.GeneratorExp) or (
-            isinstance(kwv, ast.Call) and isinstance(kwv.func, ast.Name)
-            and kwv.func.id in ('iter', 'map', 'filter', 'zip'))
+            isinstance(kwv, ast.Call) and
+            ast.unparse(kwv.func).split('.')[-1] in ONE_SHOT_FACTORIES)
         r3.check(not oneshot, 'reserved_keywords is re-iterable',
                  'minify_printer: reserved_keywords=%s' % (
                      ast.unparse(kwv) if kwv is not None else None),
